@@ -13,6 +13,9 @@ import Glb.Driver.Files
 import Glb.Driver.Json
 import Glb.Driver.Derive
 import Glb.Driver.LogSys
+import Glb.Driver.Router
+import Glb.Driver.Store
+import Glb.Driver.Nano
 import Glb.Driver.Daemon
 
 open Glb.Driver
@@ -35,4 +38,7 @@ def main (args : List String) : IO UInt32 := do
   | ["utf8"] => loop stdin stdout () Json.step; return 0
   | ["derive"] => loop stdin stdout ({} : Derive.DSt) Derive.step; return 0
   | ["logsys"] => loop stdin stdout ({} : LogSys.DSt) LogSys.step; return 0
+  | ["router"] => loop stdin stdout ({} : Router.DSt) Router.step; return 0
+  | ["store"] => loop stdin stdout ({} : Store.DSt) Store.step; return 0
+  | ["nano"] => loop stdin stdout () Nano.step; return 0
   | _ => IO.eprintln "usage: driver <stream>"; return 2
